@@ -1,2 +1,3 @@
 pub mod ds;
+pub mod pdu;
 pub mod tree;
